@@ -371,7 +371,7 @@ func (m *nodeMonitor) actionRecordsKept() {
 func (m *nodeMonitor) quiescent() {
 	n, o, w := m.n, m.o, m.n.w
 	m.actionRecordsKept()
-	if n.e == nil {
+	if !n.up() {
 		return
 	}
 	alive, idle := m.kernelAlive()
@@ -507,7 +507,7 @@ func (m *nodeMonitor) kernelAlive() (alive, idle bool) {
 func (m *nodeMonitor) final() {
 	n, o := m.n, m.o
 	m.doubleSigns()
-	if n.e == nil {
+	if !n.up() {
 		return
 	}
 	buf := make([]byte, 1<<20)
@@ -533,7 +533,7 @@ func (m *nodeMonitor) final() {
 		}
 		o.violate("C09", "state-machine-kernel-exited:"+lifetime+":"+why, fmt.Sprintf("the engine is up but the state machine kernel goroutine has returned (state machine position %d/%d)", m.smH, m.smR))
 	}
-	if !strings.Contains(st, "tmi.(*Kernel).mainLoop(") {
+	if n.bare == nil && !strings.Contains(st, "tmi.(*Kernel).mainLoop(") {
 		o.violate("C09", "mirror-kernel-exited:"+lifetime, "the engine is up but the mirror kernel goroutine has returned")
 	}
 	if !strings.Contains(st, "tsi.(*ConsensusManager).kernel(") {
